@@ -45,6 +45,10 @@ def fam_backlog(seed, n):
 def fam_hostile(seed, n):
     return [scen.hostile_script(seed, i) for i in range(n)]
 
+@family("mtu")
+def fam_mtu(seed, n):
+    return [scen.mtu_script(seed, i) for i in range(n)]
+
 @family("kf")
 def fam_kf(seed, n):
     return [scen.kf_d4(seed), scen.kf_d6(seed), scen.kf_d1b(seed), scen.kf_d14(seed), scen.kf_d6b(seed), scen.kf_d5(seed)]
@@ -98,17 +102,6 @@ def xfer_scripts(tier, seed, quick_n, thorough_n):
     n = sizes(tier, quick_n, thorough_n)
     return fam_xfer(seed, n) + fam_xfer_clean(seed, max(8, n // 5))
 
-@check("C01")
-def c01(tier, seed):
-    r = Result("C01", tier, seed)
-    model(r, "MCData", "MCData_quick", "MCData")
-    scripts = xfer_scripts(tier, seed, 60, 1200)
-    r.samples = [sample_of(s) for s in scripts[:2]]
-    r.add_validated(core.run_and_validate("C01", scripts))
-    r.assumptions = ["payload identity rests on the projection function harness/src/stream.rs (unit-tested by corrupting bytes)",
-                     "single-threaded deterministic runtime: real-thread races between application calls and the connection task are not explored"]
-    return r.finish(rule_text=GENERAL_RULE, required_cov=["C01.SegContiguous", "C01.ReadIsPrefix", "C01.SegStable", "C01.NoGarbage"])
-
 def std_check(pid, families, required, model_spec=None, assumptions=None, extra_prefixes=None):
     """Generic check: optional bounded model + scenario families + trace validation."""
     def f(tier, seed):
@@ -129,19 +122,71 @@ def std_check(pid, families, required, model_spec=None, assumptions=None, extra_
     return f
 
 DATA_MODEL = [("MCData", "MCData_quick", "MCData")]
+KF = [("kf", 6, 6)]
 
-std_check("C04", [("peer_recv", 100, 1500), ("xfer", 30, 400)],
+@check("C01")
+def c01(tier, seed):
+    r = Result("C01", tier, seed)
+    model(r, "MCData", "MCData_quick", "MCData")
+    scripts = xfer_scripts(tier, seed, 50, 1000) + fam_mtu(seed, sizes(tier, 16, 300)) + fam_kf(seed, 6)
+    r.samples = [sample_of(s) for s in scripts[:2]]
+    r.add_validated(core.run_and_validate("C01", scripts))
+    r.assumptions = ["payload identity rests on the projection function harness/src/stream.rs (unit-tested by corrupting bytes)",
+                     "single-threaded deterministic runtime: real-thread races between application calls and the connection task are not explored"]
+    return r.finish(rule_text=GENERAL_RULE, required_cov=["C01.SegContiguous", "C01.ReadIsPrefix", "C01.SegStable", "C01.NoGarbage"])
+
+std_check("C02", [("xfer_clean", 30, 400), ("xfer", 40, 800)] + KF,
+          ["C02.IdleWrite", "C02.IdleShutdown", "C02.NoStall", "C02.Silence", "C02.CompletesOk"],
+          assumptions=["liveness of the code is observed as completion without failure in virtual time over the explored schedules",
+                       "application pauses and network delays stay below the configured inactivity timeout; the SYN itself is not dropped"])
+std_check("C03", [("close", 120, 2000), ("xfer", 20, 300)] + KF,
+          ["C03.FlushHonest", "C03.EofOnlyAfterFin", "C03.SuccessMeansDelivered", "C03.AbortSurfaces"])
+std_check("C04", [("peer_recv", 100, 1500), ("xfer", 30, 400)] + KF,
           ["C04.AckExact", "C04.AckMonotone", "C04.SackExact", "C04.WindowHonest", "C04.WithinBuffer", "C04.ConsumeExact",
            "C04.OutOfOrderIsAhead", "C04.DuplicateIsOld", "C04.AlreadyPresentIsHeld"], model_spec=DATA_MODEL)
-std_check("C05", [("peer_send", 100, 1500), ("xfer", 30, 400)],
+std_check("C05", [("peer_send", 100, 1500), ("xfer", 30, 400)] + KF,
           ["C05.WindowRespected", "C05.ZeroWindowSilence", "C05.SlowStartBound", "C05.OneSegmentAfterRto"], model_spec=DATA_MODEL)
-std_check("C06", [("peer_send", 120, 2000), ("xfer", 30, 400)],
+std_check("C06", [("peer_send", 120, 2000), ("xfer", 30, 400)] + KF,
           ["C06.SegStable", "C06.NeverRetxAcked", "C06.Cap", "C06.RetxAllowed", "C06.RtoNotEarly", "C06.Backoff",
-           "C06.RtoRange", "C06.RtoFires", "C06.TimerArmed"], model_spec=DATA_MODEL)
+           "C06.RtoRange", "C06.RtoFires", "C06.TimerArmed", "C06.FastRetx"], model_spec=DATA_MODEL)
 std_check("C07", [("peer_recv", 120, 2000), ("xfer_clean", 20, 200)],
           ["C07.NoSpontaneousAck", "C07.DelayedAck", "C07.ImmediateAck"])
+std_check("C08", [("close", 100, 1500), ("many", 40, 600)],
+          ["C08.SlotFreed", "C08.EndsInTime"])
+std_check("C12", [("many", 80, 1200), ("backlog", 6, 60)],
+          ["C12.KeyUnique", "C12.LimitRespected", "C12.TableAgrees", "C12.RouteAgrees", "C12.DeliverToNamed", "C12.NoEviction"],
+          extra_prefixes=["C01."],
+          assumptions=["per-connection integrity on simultaneous connections is judged by the C01 rules on every connection (distinct streams per connection)"])
+std_check("C13", [("many", 80, 1200), ("backlog", 10, 100)],
+          ["C13.AcceptFifo", "C13.BacklogBound", "C13.RefusedOnlyWhenFull", "C13.ExcessRefused", "C13.ResetMatches",
+           "C13.AcceptReturnsMatched", "C13.AcceptCallOrder", "C13.PairOnce"])
+std_check("C14", [("mtu", 60, 1000), ("xfer", 20, 200), ("hostile", 20, 200)],
+          ["C14.NeverAboveLink", "C14.OrdinaryWithinProven", "C14.OneProbe", "C14.Converges", "C14.LogProbes"])
+std_check("C17", [("close", 100, 1500), ("peer_send", 40, 500), ("peer_recv", 40, 500)],
+          ["C17.FinSeq", "C17.FinAfterData", "C17.NothingAfterFin", "C17.PeerFinInOrder", "C17.FinAnswered",
+           "C17.ResetAborts", "C17.SynAckForm", "C17.SynAckRepeats"])
+std_check("C18", [("peer_send", 120, 2000), ("xfer", 30, 300)],
+          ["C18.NagleHold", "C18.NoHoldWhenOff", "C18.NagleDrain"])
 std_check("C19", [("peer_send", 100, 1500), ("xfer", 30, 300)],
           ["C19.TxBounded", "C19.WriteNotStuck"], model_spec=DATA_MODEL)
+
+@check("C10")
+def c10(tier, seed):
+    r = Result("C10", tier, seed)
+    scripts = fam_hostile(seed, sizes(tier, 100, 1500))
+    r.samples = [sample_of(s) for s in scripts[:2]]
+    res = core.run_and_validate("C10", scripts)
+    # Isolation: any broken rule on the innocent connection (the one with socket B) while A is under attack
+    for v, sc in res:
+        for x in v.get("viol", []):
+            if not x["rule"].startswith("C10.") and "127.0.0.1:2" in x.get("ep", ""):
+                x["ctx"] = x["rule"] + ("/" + x["ctx"] if x.get("ctx") else "")
+                x["rule"] = "C10.Isolation"
+    r.add_validated(res)
+    r.assumptions = ["'all byte strings' is covered structurally (grammar shapes x boundary values) plus random fill, not exhaustively",
+                     "memory safety is not addressed (the crate has no unsafe)"]
+    return r.finish(rule_text=GENERAL_RULE + "; hostile intents from a seeded vocabulary against a socket carrying a second, legitimate connection",
+                    required_cov=["C10.NoBugError", "C10.BoundedBuffers"])
 
 def external(pid, modname):
     def f(tier, seed):
